@@ -35,7 +35,7 @@ CollapseFrom(nm, k) == IF k > Len(nm) THEN <<>>
                             ELSE <<nm[k]>> \o CollapseFrom(nm, k + 1)
 SameFamily(ex, ob) == /\ ob[1] = ex[1]
                       /\ \/ ob[2] = ex[2]
-                         \/ ex[3] = 0 /\ CollapseFrom(ob[2], 1) = ex[2]
+                         \/ ex[3] = 0 /\ CollapseFrom(ob[2], 1) = CollapseFrom(ex[2], 1)
 SameFamilies(ex, ob) == Len(ex) = Len(ob) /\ \A k \in 1..Len(ex) : SameFamily(ex[k], ob[k])
 
 Unrepresentable(gm, v) == CASE gm = "time" -> v[2] = 0
